@@ -128,7 +128,6 @@ class MediaList(css_parser.util._NewListBase):
         # must be at least one value!
         if not atleastone:
             ok = False
-            self._wellformed = ok
             self._log.error('MediaQuery: No content.',
                             error=xml.dom.SyntaxErr)
 
